@@ -82,17 +82,34 @@ def storedir(seedid, prop, patch, demodir, runcmd, confirmed, needs):
 
 
 def detect(seedid, prop, tier="quick"):
+    """apply the patch (to /repo itself when SEED_INPLACE=1 and /repo is clean, else to a scratch worktree of /repo's HEAD
+    that the check is pointed at with VERIF_REPO), run the check, undo"""
     d = os.path.join("/verif/seeded", seedid)
-    rc, out = sh("git -C /repo status --porcelain")
-    if out.strip():
-        print("refusing: /repo is not clean"); return 2
-    rc, out = sh("git -C /repo apply %s" % os.path.join(d, "patch.diff"))
-    if rc != 0:
-        print("patch does not apply to /repo:", out); return 2
-    try:
-        rc, out = sh("./check %s %s -no-evidence" % (prop, tier), cwd="/verif", timeout=7200)
-    finally:
-        sh("git -C /repo checkout -- . && git -C /repo clean -fdq")
+    patch = os.path.join(d, "patch.diff")
+    if os.environ.get("SEED_INPLACE") == "1":
+        rc, out = sh("git -C /repo status --porcelain")
+        if out.strip():
+            print("refusing: /repo is not clean"); return 2
+        rc, out = sh("git -C /repo apply %s" % patch)
+        if rc != 0:
+            print("patch does not apply to /repo:", out); return 2
+        try:
+            rc, out = sh("./check %s %s -no-evidence" % (prop, tier), cwd="/verif", timeout=7200)
+        finally:
+            sh("git -C /repo checkout -- . && git -C /repo clean -fdq")
+    else:
+        wt = "/tmp/det-%s-%d" % (seedid, os.getpid())
+        sh("git -C /repo worktree remove --force %s" % wt)
+        rc, out = sh("git -C /repo worktree add -q --detach %s HEAD" % wt)
+        if rc != 0:
+            print("cannot create worktree:", out); return 2
+        try:
+            rc, out = sh("git apply %s" % patch, cwd=wt)
+            if rc != 0:
+                print("patch does not apply to /repo's HEAD:", out); return 2
+            rc, out = sh("VERIF_REPO=%s ./check %s %s -no-evidence" % (wt, prop, tier), cwd="/verif", timeout=7200)
+        finally:
+            sh("git -C /repo worktree remove --force %s" % wt)
     lines = [l for l in out.splitlines() if l.startswith("VIOLATION")]
     verdict = "DETECTED" if rc == 1 and lines else ("MISSED" if rc == 0 else "ERROR rc=%d" % rc)
     print("%s %s %s: %s" % (seedid, prop, tier, verdict))
